@@ -141,7 +141,11 @@ func (l capLogger) Error(msg string, err error, fields watermill.LogFields) {
 		l.rec.Log("wce")
 	}
 }
-func (l capLogger) Info(msg string, fields watermill.LogFields)             {}
+func (l capLogger) Info(msg string, fields watermill.LogFields) {
+	if msg == "Running router handlers" {
+		l.rec.Hook("logger.running_router_handlers")
+	}
+}
 func (l capLogger) Debug(msg string, fields watermill.LogFields)            {}
 func (l capLogger) Trace(msg string, fields watermill.LogFields)            {}
 func (l capLogger) With(fields watermill.LogFields) watermill.LoggerAdapter { return l }
